@@ -14,6 +14,8 @@ Operations are plain dicts (they go into replay files):
   {"op": "mark_complete"} {"op": "mark_canceled"} {"op": "resubmit", "rerun": [n..], "upd": {n: [b..]}}
   {"op": "reload"} {"op": "promote"} {"op": "demote"} {"op": "complete_hpc", "id": id}
 """
+import contextlib
+import logging
 import json
 import os
 import re
@@ -907,34 +909,71 @@ class Submission:
                 b["left"] = []
 
     def resubmit(self, failed=True, missing=True, successful=False):
-        """`jade resubmit-jobs` with the given options, through the command's own helper functions"""
+        """`jade resubmit-jobs` with the given options: the real command function runs; what it persists is observed
+        through wrappers on the Cluster methods it calls (no private helper of the command is named here, so that a
+        refactoring of the command cannot break the driver)"""
         import jade.cli.resubmit_jobs as rs
-        from jade.jobs.job_submitter import JobSubmitter
-        cl, promoted = self.load_promote()
-        if not cl.is_complete():
-            if promoted:
-                cl.demote_from_submitter()
-                self.record({"op": "demote"})
-            return False
+        from jade.jobs.cluster import Cluster
         before = self.snaps[-1]
-        rerun = rs._get_jobs_to_resubmit(cl, self.out, failed, missing, successful)
-        upd = rs._update_with_blocking_jobs(rerun, self.out)
-        rs._reset_results(self.out, rerun)
-        sink = []
-        with watch_unlocked(self.out, sink):
-            cl.prepare_for_resubmission(rerun, upd)
-        self.mid += [(len(self.ops), f, sn) for f, sn in sink]
-        partial = any(j["state"] == "not_submitted" and j["name"] not in rerun for j in before["jobs"])
-        self.record({"op": "resubmit", "rerun": sorted(rerun, key=idx), "upd": {n: sorted(b, key=idx) for n, b in upd.items()},
-                     "options": {"failed": failed, "missing": missing, "successful": successful}, "partial": partial})
-        self._instrument(cl)
-        mgr = JobSubmitter.load(self.out)
-        self._guard(lambda: mgr.submit_jobs(cl))
-        if self.error is None:
-            cl.demote_from_submitter()
-            self.record({"op": "demote"})
+        drv = self
+        state = {"rerun": None, "ran": False}
+        orig_deser, orig_prep, orig_demote = Cluster.__dict__["deserialize"], Cluster.prepare_for_resubmission, Cluster.demote_from_submitter
+
+        def deser(cls, *a, **kw):
+            res = orig_deser.__func__(cls, *a, **kw)
+            if kw.get("try_promote_to_submitter") and not state["ran"]:
+                state["ran"] = True
+                # one locked action in the command (load + promote): the load itself changes nothing on disk
+                drv.ops.append({"op": "reload"})
+                drv.snaps.append(drv.snaps[-1])
+                drv.rows_after.append(drv.rows_after[-1])
+                drv.record({"op": "promote"})
+            return res
+
+        def prep(cl, jobs, upd):
+            rerun, upd2 = set(jobs), {n: set(b) for n, b in upd.items()}
+            sink = []
+            with watch_unlocked(drv.out, sink):
+                orig_prep(cl, jobs, upd)
+            drv.mid += [(len(drv.ops), f, sn) for f, sn in sink]
+            partial = any(j["state"] == "not_submitted" and j["name"] not in rerun for j in before["jobs"])
+            drv.record({"op": "resubmit", "rerun": sorted(rerun, key=idx), "upd": {n: sorted(b, key=idx) for n, b in upd2.items()},
+                        "options": {"failed": failed, "missing": missing, "successful": successful}, "partial": partial})
+            state["rerun"] = rerun
+            drv._instrument(cl)
+
+        def demote(cl):
+            orig_demote(cl)
+            drv.record({"op": "demote"})
+
+        Cluster.deserialize = classmethod(deser)
+        Cluster.prepare_for_resubmission = prep
+        Cluster.demote_from_submitter = demote
+        saved_handlers = {n: list(logging.getLogger(n).handlers) for n in ("", "jade", "_jade_event", "jade.cli.resubmit_jobs")}
+        try:
+            def go():
+                try:
+                    with open(os.devnull, "w") as dn, contextlib.redirect_stdout(dn), contextlib.redirect_stderr(dn):
+                        rs.resubmit_jobs.callback(output=self.out, failed=failed, missing=missing, successful=successful,
+                                                  submission_groups_file=None, verbose=False)
+                except SystemExit:
+                    pass
+            self._guard(go)
+        finally:
+            Cluster.deserialize = orig_deser
+            Cluster.prepare_for_resubmission = orig_prep
+            Cluster.demote_from_submitter = orig_demote
+            for n, hs in saved_handlers.items():      # the command configures logging: put the handlers back
+                lg = logging.getLogger(n)
+                for h in list(lg.handlers):
+                    if h not in hs:
+                        lg.removeHandler(h)
+                        try:
+                            h.close()
+                        except Exception:   # noqa
+                            pass
         self._collect_batches()
-        return True
+        return state["rerun"] is not None
 
     def _collect_batches(self):
         for ev in self.fake.log:
